@@ -21,10 +21,13 @@
 // reports nothing in the free-running pass.  Durations and timestamps are never
 // compared.
 //
-// Sharding.  The schedule tree of an instance is partitioned into "the default
-// schedule" and the subtree below each first non-default choice (position.value);
-// each part is one case (key "<instance>/<bound>/subtree=<pos>.<val>"), so replaying
-// a key re-explores that subtree deterministically.
+// Sharding.  The schedule tree of an instance is partitioned into single schedules
+// (case key "<instance>/<bound>/node=<non-default choices>") and complete subtrees
+// ("…/subtree=<non-default choices>": that schedule and every schedule extending its
+// list of non-default choices at later positions).  Early — large — subtrees are split
+// one or two levels deeper so that no case dominates.  Replaying a key re-explores
+// exactly that part, deterministically; a failure message contains the failing
+// schedule (choice list) and a trace with call sites.
 package c10
 
 import (
